@@ -70,6 +70,10 @@ class E(Exception):
     """used both as a traversal context (?ctx=E) and as the exception raised by the view `boom`"""
 
 
+class E2(E):
+    """a more specific exception, raised by the view `boom2`"""
+
+
 class IFoo(Interface):
     """an interface a context class / instance may start or stop providing between two requests"""
 
@@ -78,7 +82,7 @@ class IBar(IFoo):
     pass
 
 
-CLS = {'A': A, 'B': B, 'C': C, 'E': E, 'IFoo': IFoo, 'IBar': IBar}
+CLS = {'A': A, 'B': B, 'C': C, 'E': E, 'E2': E2, 'Exception': Exception, 'IFoo': IFoo, 'IBar': IBar}
 IFACES = {'IFoo': IFoo, 'IBar': IBar}
 NAMES = ['', 'x', 'y']
 IFC_OPS = []              # the interface-change operations applied since the last reset (part of the oracle memo key)
@@ -154,16 +158,21 @@ def boom_view(context, request):
     raise E('boom')
 
 
+def boom2_view(context, request):
+    raise E2('boom2')
+
+
 def apply_reg(config, r):
     """one registration, committed on its own (a later commit of the same discriminator is a replacement)"""
     kind = r.get('kind', 'view')
     if kind == 'nf':
         config.add_notfound_view(view_for(r['tag']))
     elif kind == 'exc':
+        exc = CLS[r.get('context') or 'E']
         if _route(r):
-            config.add_exception_view(view_for(r['tag']), context=E, route_name=_route(r))
+            config.add_exception_view(view_for(r['tag']), context=exc, route_name=_route(r))
         else:
-            config.add_exception_view(view_for(r['tag']), context=E)
+            config.add_exception_view(view_for(r['tag']), context=exc)
     else:
         kw = {'name': r.get('name', '')}
         if r.get('context'):
@@ -195,6 +204,8 @@ def make_config(regs):
     config.add_route('g', '/g/*traverse', use_global_views=True)
     config.add_view(boom_view, name='boom')
     config.add_view(boom_view, name='boom', route_name='r')
+    config.add_view(boom2_view, name='boom2')
+    config.add_view(boom2_view, name='boom2', route_name='r')
     config.commit()
     for r in regs:
         apply_reg(config, r)
@@ -943,7 +954,16 @@ def gen_reg(rng, tag, allow_e=True):
         return {'kind': 'nf', 'tag': tag}
     if r < 0.15 and allow_e:
         reg = {'kind': 'exc', 'tag': tag}
+        if rng.random() < 0.5:
+            reg['context'] = rng.choice(['Exception', 'E2', 'E'])
         if rng.random() < 0.4:
+            reg['route'] = rng.choice(['g', 'r'])
+        return reg
+    if r < 0.22 and allow_e:
+        # a PLAIN add_view whose context is an exception class: registers under both classifiers, name '' is the one
+        # exception view lookups use
+        reg = {'kind': 'view', 'tag': tag, 'context': rng.choice(['E', 'E2', 'E2']), 'name': rng.choice(['', '', '', 'x'])}
+        if rng.random() < 0.3:
             reg['route'] = rng.choice(['g', 'r'])
         return reg
     ctxs = [None, None, 'A', 'B', 'B', 'C', 'C', 'IFoo', 'IFoo', 'IBar'] + (['E'] if allow_e else [])
@@ -978,7 +998,7 @@ def gen_req(rng, earlier, allow_e=True):
     r = rng.random()
     q = {'ctx': rng.choice(['A', 'B', 'C', 'C', 'C'] + (['E'] if allow_e else []))}
     if r < 0.12:
-        q['name'] = 'boom'
+        q['name'] = rng.choice(['boom', 'boom', 'boom2'])
     elif r < 0.20:
         q['name'] = 'nope'
     else:
@@ -1030,7 +1050,7 @@ def gen_sibling(rng, tag, regs):
 
 def gen_inject(rng, tag, req, allow_e):
     reg = gen_reg(rng, tag, allow_e)
-    if rng.random() < 0.6 and reg.get('kind') == 'view' and req.get('name') not in ('boom', 'nope'):
+    if rng.random() < 0.6 and reg.get('kind') == 'view' and req.get('name') not in ('boom', 'boom2', 'nope'):
         reg['name'] = req.get('name', '')                      # aim at the URL being looked up
     r = rng.random()
     at = 'probe' if r < 0.12 else 'write' if r < 0.27 else rng.choice([0, 1, 2, 3, 4, 5, 6, 7, 8, 9, 10, 11, 12, 14, 17, 20, 26, 29])
@@ -1059,7 +1079,7 @@ def gen_case(rng, maxops=8):
             reg = gen_sibling(rng, tag(), regs_all)
         if reg is None:
             reg = gen_reg(rng, tag(), allow_e)
-            if q is not None and reg.get('kind') == 'view' and q.get('name') not in ('boom', 'nope') and rng.random() < 0.7:
+            if q is not None and reg.get('kind') == 'view' and q.get('name') not in ('boom', 'boom2', 'nope') and rng.random() < 0.7:
                 reg['name'] = q.get('name', '')
         regs_all.append(reg)
         return reg
@@ -1113,15 +1133,21 @@ def enumerate_replace():
     """warm cache ; replacement at run time ; the same request again — through every request interface: plain, the
     use_global_views route answered by a SITE-WIDE view, routed views that raise answered by a SITE-WIDE exception view
     (both routes), the 404 path; replacements: same discriminator, predicate sibling (multiview), more specific context,
-    replaced exception view, notfound view; cold variant and a second unrelated request in between"""
+    replaced exception view, notfound view, a plain add_view for an exception class (more specific than / equal to the cached
+    exception view's context, unrouted and route-bound); cold variant and a second unrelated request in between"""
     init = [{'kind': 'view', 'tag': 'G0', 'context': None, 'name': ''}, {'kind': 'view', 'tag': 'G1', 'context': None, 'name': 'x'},
             {'kind': 'exc', 'tag': 'X0'}]
     reqs = [{'name': 'x', 'ctx': 'C'}, {'name': 'x', 'ctx': 'C', 'route': 'g'}, {'name': '', 'ctx': 'B', 'route': 'g'},
             {'name': 'boom', 'ctx': 'C'}, {'name': 'boom', 'ctx': 'C', 'route': 'g'}, {'name': 'boom', 'ctx': 'C', 'route': 'r'},
+            {'name': 'boom2', 'ctx': 'C'}, {'name': 'boom2', 'ctx': 'C', 'route': 'g'}, {'name': 'boom2', 'ctx': 'C', 'route': 'r'},
             {'name': 'nope', 'ctx': 'C', 'route': 'r'}]
     regs = [{'kind': 'view', 'tag': 'N1', 'context': None, 'name': 'x'}, {'kind': 'view', 'tag': 'N0', 'context': None, 'name': ''},
             {'kind': 'view', 'tag': 'N2', 'context': None, 'name': 'x', 'param': 'p'}, {'kind': 'view', 'tag': 'N3', 'context': 'A', 'name': 'x'},
-            {'kind': 'exc', 'tag': 'X1'}, {'kind': 'nf', 'tag': 'F1'}]
+            {'kind': 'exc', 'tag': 'X1'}, {'kind': 'nf', 'tag': 'F1'},
+            # a PLAIN add_view whose context is an exception class (registered under BOTH classifiers): more specific than
+            # the cached exception view's context, the same context, and route-bound
+            {'kind': 'view', 'tag': 'P2', 'context': 'E2', 'name': ''}, {'kind': 'view', 'tag': 'P0', 'context': 'E', 'name': ''},
+            {'kind': 'view', 'tag': 'P3', 'context': 'E2', 'name': '', 'route': 'r'}, {'kind': 'exc', 'tag': 'X2', 'context': 'E2'}]
     for q in reqs:
         for reg in regs:
             yield {'init': init, 'ops': [{'op': 'get', 'req': q}, {'op': 'reg', 'reg': reg}, {'op': 'get', 'req': q}]}
